@@ -234,7 +234,8 @@ class Interval(Operation):
         else:
             # anything else can only be read back as a single string
             value, unit = arg, ''
-        value = value.replace("'", "\\'")
+        # a backslash pairs with the next character when the literal is read: write it twice
+        value = value.replace('\\', '\\\\').replace("'", "\\'")
         return f"INTERVAL '{value}'{unit}"
 
     def to_tree(self, *args, level=0, **kwargs):
